@@ -3,6 +3,21 @@
 import json, os
 HERE = os.path.dirname(os.path.dirname(os.path.abspath(__file__)))
 CHECKS = {
+ "C02": dict(technique="conditioning-aware re-solution of the published law against every calculate_* return value, unit-spelling metamorphic relation",
+             text="Exploration: every calculate_* function whose guard specifications (recovered from the decorator closures) map parameters and result to symbols of the module's published algebraic law is called on seeded admissible tuples in random prefixes; the returned value must be the 50-digit root of the law (exact rational inputs, Newton from the returned value) within 1e-6, after conditioning and double-precision-instability filters; documented abs/ceil functions come from a committed table and ceil functions are driven to solutions just above integers; every tuple is re-spelled in other prefixes. Functions outside this shape are listed as uncovered with the reason.",
+             note="Trusted: closure introspection of the decorators, mpmath.findroot, the exceptions table vf/data/c02_exceptions.json. Negative magnitudes are not generated.", ref="§4 C02"),
+ "C09": dict(technique="id-trace monitor on next_id + creation/clone histories with forced name collisions, twin computations, printer output scan",
+             text="Exploration over histories: a wrapper on the real id generator checks online that ids increase by one per prefix and no name is issued twice (seeded histories and a full catalogue import); seeded creation/clone histories with colliding display names ('x','x1','x11',...), bare-False and non-commutative assumption sets and counter bumps across digit boundaries check pairwise distinctness, the clone record (dimension, names, subscript, assumptions), non-interference of subs/diff/solve against plainly named SymPy twins, and that print_expression/code_str/latex_str show display names only; Symbolic wrappers of same-named symbols are checked for aliasing.",
+             note="Trusted: SymPy's own Symbol semantics for the twins. IndexedSymbol(<SymPy symbol>) is excluded by design of the library.", ref="§4 C09"),
+ "C17": dict(technique="own precedence parser of the code rendering, numeric equality with the original tree",
+             text="Exploration (generated canonical trees) + exhaustive over the catalogue (every documented member in its documented source form): code_str output is parsed by an own name-aware precedence parser and evaluated at 3 random points with the same mpmath semantics as the original (opaque stand-ins for undefined functions/derivatives/integrals/sums), with conditioning filters for 15-digit float printing.",
+             note="Trusted: vf/parse_code.py grammar, mpmath.", ref="§4 C17"),
+ "C18": dict(technique="brace/left-right automaton + own ambiguity-tolerant LaTeX-math reader, numeric equality with the original tree",
+             text="Same inputs as C17: every latex_str output passes a balance automaton and is read by an own LaTeX-math reader (all combinations of admissible readings of prefix-operator extent); flagged only if no reading has the value of the original at 3 random points.",
+             note="Trusted: vf/parse_latex.py reading rules, mpmath. Constructs outside the reader are inconclusive.", ref="§4 C18"),
+ "C19": dict(technique="flag-transition trace + page-set/page-content monitors on real generator runs under several histories, hash seeds and directory orders",
+             text="Exploration over histories: the real docs/build.py entry point runs in fresh processes (canonical; after a full catalogue import; after computations; other PYTHONHASHSEED with permuted os.walk) with wrappers recording the evaluation-flag trace; the page set is compared with an own walk of the source tree; every page is checked for leftover placeholders/roles, :attr: targets, symbol blocks against the imported module's attributes, :code: strings parsed and compared numerically with the imported module's equations, LaTeX balance; every run is compared file-by-file with a canonical twin and a post-run battery of computations with a fresh process.",
+             note="Trusted: the C17/C18 readers; leaf identity by display name. Sphinx HTML stage not run.", ref="§4 C19"),
  "C10": dict(technique="polynomial-identity monitor on the real arithmetic functions with generic symbolic components, exhaustive over operand lengths",
              text="Exhaustive over the length space (0..3)^3 with generic symbolic components: every identity of the statement is decided on the returned components by expand()==0 and by random rational evaluation (one execution stands for all component values); plus seeded numeric draws per length combination and the refusal cases (different CoordinateSystem objects, non-Cartesian operands, >3 components) for all length pairs.",
              note="Trusted: SymPy expand / Rational arithmetic.", ref="§4 C10"),
